@@ -247,6 +247,14 @@ apply(const hstep_t *s) {
 		 * environment; on the correct tree the timerfd is closed by then and the step is a no-op. */
 		if (!(C.timeout && task_started) || rec_tfd_last < 0)
 			break;
+		/* "inactivity longer than the configured timeout is reported": while the task waits with a timeout configured,
+		 * the library's own last timerfd_settime() must have armed the timer, with the configured value */
+		if (timer_armed_now()) {
+			if (0 == rec_spec.it_value.tv_sec && 0 == rec_spec.it_value.tv_nsec)
+				cfail("timeout-not-armed", "the task waits with a timeout configured but the library's last timerfd_settime() disarmed the timer");
+			else if ((time_t)(TIMEOUT_MS / 1000) != rec_spec.it_value.tv_sec || 0 != rec_spec.it_value.tv_nsec)
+				cfail("timeout-value", "timer programmed with %ld s %ld ns, configured timeout is %llu ms", (long)rec_spec.it_value.tv_sec, (long)rec_spec.it_value.tv_nsec, (unsigned long long)TIMEOUT_MS);
+		}
 		memset(&its, 0, sizeof(its));
 		its.it_value.tv_nsec = 1;
 		__real_timerfd_settime(rec_tfd_last, 0, &its, NULL);
